@@ -178,7 +178,12 @@ theorem C05_misuse_silent (u : Bytes → Option Url) (c : Conn) (op : Op) (e : H
           exfalso
           simp only [Bool.false_eq_true, if_false] at h
           cases l with
-          | none => simp [resOf] at h
+          | none =>
+            simp only at h
+            split at h
+            · simp only [resOf, OpRes.err.injEq] at h; subst h
+              rcases hm with h | h | h | h <;> cases h
+            · simp [resOf] at h
           | some n =>
             simp only at h
             split at h
@@ -199,7 +204,12 @@ theorem C05_misuse_silent (u : Bytes → Option Url) (c : Conn) (op : Op) (e : H
             have : writeContinue c = ((writeContinue c).1, .ok v) := by rw [← hw]
             rw [this] at h
             cases l with
-            | none => simp [resOf] at h
+            | none =>
+              simp only at h
+              split at h
+              · simp only [resOf, OpRes.err.injEq] at h; subst h
+                rcases hm with h | h | h | h <;> cases h
+              · simp [resOf] at h
             | some n =>
               simp only at h
               split at h
@@ -222,11 +232,15 @@ theorem C05_misuse_silent (u : Bytes → Option Url) (c : Conn) (op : Op) (e : H
           split at hb
           · cases hb; simp [Misuse]
           · cases hb
-        have hbadL : ∀ (k n : Nat) b, (if k < n then some HttpError.bodyTooLong else none) = some b → ¬ Misuse b := by
-          intro k n b hb
-          split at hb
-          · cases hb; simp [Misuse]
-          · cases hb
+        have hbadL : ∀ (p : Prop) [Decidable p] (k n : Nat) b,
+            (if p then some HttpError.truncated else if k < n then some HttpError.bodyTooLong else none) = some b → ¬ Misuse b := by
+          intro p _ k n b hb
+          by_cases hp : p
+          · rw [if_pos hp] at hb; cases hb; simp [Misuse]
+          · rw [if_neg hp] at hb
+            split at hb
+            · cases hb; simp [Misuse]
+            · cases hb
         cases l with
         | some n =>
           simp only at h ⊢
@@ -255,7 +269,7 @@ theorem C05_misuse_silent (u : Bytes → Option Url) (c : Conn) (op : Op) (e : H
           | ok v =>
             exfalso
             simp only [hw] at h
-            exact store_res_not_misuse _ _ _ _ e (hbadL _ _) h hm
+            exact store_res_not_misuse _ _ _ _ e (hbadL _ _ _) h hm
 
 /-! ### At most one final response per request, over every call sequence -/
 
@@ -338,7 +352,7 @@ theorem owed_only_by_read (u : Bytes → Option Url) (c : Conn) (op : Op) (h : c
         | false =>
           simp only [Bool.false_eq_true, if_false]
           cases l with
-          | none => exact h
+          | none => simp only; split <;> exact h
           | some n => simp only; split <;> exact h
         | true =>
           simp only [if_true]
@@ -350,7 +364,7 @@ theorem owed_only_by_read (u : Bytes → Option Url) (c : Conn) (op : Op) (h : c
             have : writeContinue c = (c, .ok v) := Prod.ext hw hr
             rw [this]
             cases l with
-            | none => exact h
+            | none => simp only; split <;> exact h
             | some n => simp only; split <;> exact h
   | readBodyToFile m fs =>
     simp only [step]
@@ -462,7 +476,7 @@ theorem C05_auto_continue (c : Conn) (l : Option Nat) (e : Bool) (hrs : c.rs = .
     unfold readBodyToVec
     simp only [hrs, Bool.or_self, Bool.false_eq_true, if_false]
     cases l with
-    | none => rfl
+    | none => simp only; split <;> rfl
     | some n => simp only; split <;> rfl
   · intro he hws
     subst he
@@ -474,7 +488,7 @@ theorem C05_auto_continue (c : Conn) (l : Option Nat) (e : Bool) (hrs : c.rs = .
     unfold readBodyToVec
     simp only [hrs, Bool.or_self, Bool.false_eq_true, if_false, if_true, hwc]
     cases l with
-    | none => rfl
+    | none => simp only; split <;> rfl
     | some n => simp only; split <;> rfl
   · intro he hws
     subst he
